@@ -2,6 +2,7 @@
 from sim import history
 
 PROP = 'C07'
+TECHNIQUE = 'deterministic simulation: seeded overlap-rich histories; chunk objects == referenced chunks and journal-level upload accounting'
 LEVEL = 'exploration'
 RULE = ('one case = a crash-free seeded history of snapshot / delete / clean by users with the same, shared or independent keys '
         'over file sets with engineered overlap (identical files, shared aligned prefixes / suffixes, repeated blocks) at '
